@@ -12,7 +12,7 @@ from symx import core
 from symx.core import sym_and, sym_or, sym_not, implies
 from props import _tv
 from ref import irsem
-from corpus import cprogs
+from corpus import cprogs, irprogs
 
 SINGLE = ["Mem2RegPromotor", "RemoveAddZeroPass", "ConstantFolder", "CommonSubexpressionEliminationPass",
           "TailCallOptimization", "LoadAfterStorePass", "DeleteUnusedInstructionsPass", "CleanPass", "CJumpPass"]
@@ -144,9 +144,17 @@ class PassHarness(Harness):
                              "ppci.utils.bitfun", "ppci.irutils.verify", "ppci.ir")
 
     def inputs(self, mk):
-        src, entry, ext = cprogs.PROGS[self.prog]
-        m1 = _tv.c_module(src)
-        m2 = _tv.c_module(src)
+        if self.prog.startswith("ir:"):
+            import io
+            from ppci.irutils import read_module
+            text = irprogs.source(self.prog)
+            m1 = read_module(io.StringIO(text))
+            m2 = read_module(io.StringIO(text))
+            entry = "f"
+        else:
+            src, entry, ext = cprogs.PROGS[self.prog]
+            m1 = _tv.c_module(src)
+            m2 = _tv.c_module(src)
         inp = _tv.declare_inputs(mk, m1, entry)
         if self.symconst:
             c1, c2 = _tv.consts_of(m1), _tv.consts_of(m2)
@@ -243,6 +251,11 @@ def jobs_for(prop, tier, seed):
             js.append(("mk_pass", dict(prop=prop, prog=p, config=f"level:{lvl}", symconst=False)))
         js.append(("mk_pass", dict(prop=prop, prog=p, config="seq:Mem2RegPromotor+ConstantFolder+CJumpPass+CleanPass",
                                    symconst=True)))
+    # IR-level CFG skeleton family (phis, joins, self loops, double edges): CFG-rewriting passes + pipeline
+    for nm in irprogs.names(tier, seed):
+        for cfg in ("pass:CleanPass", "level:2", "seq:Mem2RegPromotor+ConstantFolder+CJumpPass+CleanPass") if tier == "quick" \
+                else ["pass:" + x for x in SINGLE] + ["level:2", "level:3"]:
+            js.append(("mk_pass", dict(prop=prop, prog=nm, config=cfg, symconst=cfg.startswith("seq:"))))
     only = os.environ.get("VERIF_ONLY")
     if only:
         js = [j for j in js if only in repr(j)]
